@@ -625,6 +625,80 @@ def reassembly_fn(F):
     return c[0] if len(c) == 1 else None
 
 
+
+def rule_msg_commit(ctx, cfg, F):
+    R = ctx.rule("MSG-COMMIT", "once the first packet of a message has been read, the receive can fail only because a follow-up read itself returned 0 or < 0: every Err return "
+                 "reachable after the first-packet read either passes the first read's own error on unchanged or lies behind an edge `follow-up read result == 0 / < 0`. "
+                 "No timeout, mode test or other early exit abandons a message that has been started (the rest of it would be lost and the sender's send would fail)")
+    g = reassembly_fn(F)
+    rf = recvmsg_fn(F)
+    if not g or not rf:
+        R.violate("anchor-missing:reassembly", "no unique reassembly / recvmsg function", config=cfg)
+        return
+    tr = Tracer(g)
+    first = [b for b, t in g.calls() if strip_generics(callee_name(t)) in (strip_generics(rf.path), "libc::recvmsg")]
+    if g is rf:
+        first = [b for b, t in g.calls_to("libc::recvmsg")]
+    if len(first) != 1:
+        R.violate("anchor-missing:first-packet-read", "expected one first-packet read in %s, found %d" % (g.path, len(first)), g.path, config=cfg)
+        return
+    cb0 = first[0]
+    recv_blocks = {b for b, t in g.calls_to("libc::recv")}
+    ex = Explorer(g)
+    bad = {}
+    n_err = [0]
+
+    def classify_ret(b):
+        """how block b defines the return place: 'ok', 'err-first' (first read's error passed on), 'err-other', or None"""
+        out = None
+        for st in g.stmts(b):
+            if st["s"] == "assign" and st["lhs"]["l"] == 0 and not st["lhs"].get("p") and st["rv"]["r"] == "agg":
+                v = st["rv"]["kind"].get("variant")
+                out = "ok" if v == "Ok" else "err-other"
+        t = g.term(b)
+        if t["t"] == "call" and t["dest"]["l"] == 0 and not t["dest"].get("p") and "from_residual" in strip_generics(t.get("callee") or callee_name(t)):
+            roots = tr.roots_of_operand(t["args"][0])
+            calls = {r.block for r in roots if r.kind == "call"}
+            out = "err-first" if roots and calls == {cb0} and all(r.kind == "call" for r in roots) else "err-other"
+        return out
+
+    def step(b, st, env):
+        last, rel_ok, ret = st
+        if b in recv_blocks:
+            last, rel_ok = b, False
+        k = classify_ret(b)
+        if k:
+            ret = k
+        return (last, rel_ok, ret)
+
+    def edge(b, s, labs, st, env):
+        last, rel_ok, ret = st
+        if last is not None:
+            for lab in labs:
+                rel = relation_of_label(g, lab)
+                if rel:
+                    a, c, rs = rel
+                    if any(r.kind == "call" and r.block == last for r in tr.roots_of_operand(a)) and _const_of(g, tr, c) == 0 and rs <= {"eq", "lt"}:
+                        rel_ok = True
+        return (last, rel_ok, ret)
+
+    def at_return(b, st, path):
+        last, rel_ok, ret = st
+        if ret in ("err-other",):
+            n_err[0] += 1
+            if not rel_ok:
+                bad.setdefault(_exit_calls(g, path) or "direct", path)
+
+    ex.walk(g.term(cb0)["to"], (None, False, None), step, at_return=at_return, edge=edge)
+    R.count("error_exits[%s]" % cfg, n_err[0])
+    if bad:
+        for k, path in sorted(bad.items()):
+            R.violate("%s:message-abandoned:%s" % (g.path, k), "an Err return is reachable after the first packet was read without a follow-up read having returned 0 or < 0 (exit via %s): "
+                      "a message that was started is abandoned" % k, g.path, g.loc(path[-1]), path="bb" + "->bb".join(map(str, path[-14:])), config=cfg)
+    else:
+        R.ok("%s: every error exit after the first-packet read is behind a failed follow-up read (%d exits)" % (g.path, n_err[0]), g.loc(cb0), cfg)
+
+
 def rule_trunc_err(ctx, cfg, F):
     R = ctx.rule("TRUNC-ERR", "in the reassembly function no Ok return is reachable from a follow-up read that returned 0 or < 0, and every Ok return is "
                  "preceded by an edge establishing received length >= announced total (equality on the fast path, failed `len < total` on the loop exit)")
